@@ -361,7 +361,7 @@ def shrink_candidates(scn):
             yield s
 
 
-RUNS = {"quick": 500, "thorough": 4000}
+RUNS = {"quick": 350, "thorough": 4000}
 RULE = ("one evaluation = one seeded world of 2-4 minerals (both phases, own flows / params / "
         "pathlines) whose op list is produced by a seeded scheduler: call-level interleaving, and "
         "overlap ops in which 2-3 minerals are advanced concurrently by real caller threads parked "
